@@ -57,7 +57,13 @@ def seeds():
     for d in sorted(glob.glob(os.path.join(VERIF, "seeded", "*"))):
         name = os.path.basename(d)
         pid = name.split("-")[0]
-        res = seedtest.detect(os.path.join(d, "patch.diff"), [pid])
+        try:
+            res = seedtest.detect(os.path.join(d, "patch.diff"), [pid])
+        except AssertionError as e:
+            # the change no longer applies to the repaired tree (the lines it edits were repaired since)
+            out[name] = "does not apply"
+            print(name, "does not apply:", str(e)[-160:].replace("\n", " "), flush=True)
+            continue
         meta = json.load(open(os.path.join(d, "meta.json")))
         meta["final_pass"] = {"exit": res[pid]["rc"], "first_lines": res[pid]["summary"][:2]}
         json.dump(meta, open(os.path.join(d, "meta.json"), "w"), indent=1)
